@@ -24,6 +24,7 @@ func main() {
 	overlay := flag.String("overlay", "", "comma separated list of repoRelPath=replacementFile (in-memory overlay)")
 	list := flag.Bool("list", false, "list registered properties")
 	dump := flag.String("dump", "", "debug: dump SSA of rel/pkg:Recv:Name")
+	patch := flag.String("patch", "", "analyse the tree with this unified diff applied in memory (overlay); the working tree is not touched")
 	flag.Parse()
 	if *dump != "" {
 		prog, err := core.Load(core.LoadOptions{RepoDir: *repo})
@@ -104,6 +105,24 @@ func main() {
 			opt.Overlay[filepath.Join(*repo, parts[0])] = b
 		}
 	}
+	if *patch != "" {
+		pb, err := os.ReadFile(*patch)
+		if err != nil {
+			fmt.Println("ERROR", err)
+			os.Exit(2)
+		}
+		ov, ok := applyDiff(*repo, string(pb))
+		if !ok {
+			fmt.Println("ERROR patch does not apply to the current tree")
+			os.Exit(2)
+		}
+		if opt.Overlay == nil {
+			opt.Overlay = map[string][]byte{}
+		}
+		for k, v := range ov {
+			opt.Overlay[k] = v
+		}
+	}
 	prog, err := core.Load(opt)
 	if err != nil {
 		// a tree that does not type-check cannot be judged: fail closed
@@ -134,7 +153,7 @@ func main() {
 			}()
 			ch.Run(&props.Ctx{P: prog, R: r, Tier: *tier})
 		}()
-		if *tier == "thorough" && *overlay == "" {
+		if *tier == "thorough" && *overlay == "" && *patch == "" {
 			selfTest(id, *repo, vdir, *tier, r)
 		}
 		r.Extra["load_s"] = loadT.Seconds()
